@@ -51,6 +51,10 @@ pub struct E2eCase {
     /// handshake. 0 = off, 1 = port 6881 is free, 2 = port 6881 is already taken by another program
     #[serde(default)]
     pub listen_check: u8,
+    /// this many further peers dial in right at the start, announce every piece and then stay connected without ever
+    /// unchoking the client (a popular torrent: more interesting peers than the client has slots)
+    #[serde(default)]
+    pub crowd: u8,
     pub seed: u64,
 }
 
@@ -82,6 +86,12 @@ pub struct E2eResult {
     /// message after the handshakes (the session really works with them) within 5 s?
     #[serde(default)]
     pub serves_after_recovery: Option<bool>,
+    /// C19 mode with a crowd: was a peer dialling in after the tracker's recovery served?
+    #[serde(default)]
+    pub crowd_newcomer_served: Option<bool>,
+    /// an announce whose `left` is more than the torrent or less than what the peers have not yet delivered
+    #[serde(default)]
+    pub left_violation: Option<String>,
     pub wall_ms: u64,
     pub error: Option<String>,
 }
@@ -145,6 +155,9 @@ struct Shared {
     handshake_ok: Vec<AtomicBool>,
     announced_port: AtomicU64,
     engaged: Vec<AtomicBool>,
+    /// payload bytes the fake peers have sent to the client so far (an upper bound of what it can have verified)
+    served_bytes: AtomicU64,
+    left_violation: std::sync::Mutex<Option<String>>,
 }
 
 fn ms(t0: Instant) -> u64 {
@@ -186,6 +199,27 @@ async fn fake_tracker(case: E2eCase, t: Torrent, sh: Arc<Shared>) {
                     if let Some(v) = kv.strip_prefix("port=") {
                         if let Ok(p) = v.parse::<u16>() {
                             sh.announced_port.store(p as u64 + 1, Ordering::SeqCst);
+                        }
+                    }
+                }
+            }
+        }
+        {
+            // `left` of every announce: never more than the whole torrent, never less than what cannot have arrived yet
+            let text = String::from_utf8_lossy(&_req).to_string();
+            let line = text.lines().next().unwrap_or("").to_string();
+            if let Some(q) = line.split(' ').nth(1).and_then(|p| p.split_once('?')).map(|x| x.1.to_string()) {
+                for kv in q.split('&') {
+                    if let Some(v) = kv.strip_prefix("left=") {
+                        if let Ok(left) = v.parse::<u64>() {
+                            let total = t.geo.total() as u64;
+                            let served = sh.served_bytes.load(Ordering::SeqCst);
+                            if left > total || left < total.saturating_sub(served) {
+                                let mut lv = sh.left_violation.lock().unwrap();
+                                if lv.is_none() {
+                                    *lv = Some(format!("announce #{} says left={} for a torrent of {} bytes of which the peers had delivered {} bytes at that moment", sh.tracker_requests.load(Ordering::SeqCst) + 1, left, total, served));
+                                }
+                            }
                         }
                     }
                 }
@@ -329,6 +363,7 @@ async fn fake_peer(i: usize, spec: E2ePeer, has: Vec<bool>, t: Torrent, own_id: 
                     let piece = t.piece(pi as usize);
                     let e = (b as usize + l as usize).min(piece.len());
                     let data = piece[(b as usize).min(e)..e].to_vec();
+                    sh.served_bytes.fetch_add(data.len() as u64, Ordering::SeqCst);
                     let _ = s.write_all(&wire::encode(&RFrame::Piece(pi, b, data))).await;
                     served += 1;
                     if let Some(k) = spec.reset_after_blocks {
@@ -439,6 +474,8 @@ pub fn child_main(case_path: &str, out_path: &str) -> i32 {
         contacted: (0..case.peers.len()).map(|_| AtomicBool::new(false)).collect(),
         handshake_ok: (0..case.peers.len()).map(|_| AtomicBool::new(false)).collect(),
         engaged: (0..case.peers.len()).map(|_| AtomicBool::new(false)).collect(),
+        served_bytes: AtomicU64::new(0),
+        left_violation: std::sync::Mutex::new(None),
     });
     let rt = tokio::runtime::Builder::new_current_thread().enable_all().build().expect("runtime");
     let started = Instant::now();
@@ -455,6 +492,8 @@ pub fn child_main(case_path: &str, out_path: &str) -> i32 {
     let listen_answer2 = listen_answer.clone();
     let after_recovery: Arc<std::sync::Mutex<Option<bool>>> = Arc::new(std::sync::Mutex::new(None));
     let after_recovery2 = after_recovery.clone();
+    let crowd_served: Arc<std::sync::Mutex<Option<bool>>> = Arc::new(std::sync::Mutex::new(None));
+    let crowd_served2 = crowd_served.clone();
     let ih = t.info_hash();
     let outcome = std::panic::catch_unwind(std::panic::AssertUnwindSafe(|| {
         rt.block_on(async {
@@ -465,6 +504,31 @@ pub fn child_main(case_path: &str, out_path: &str) -> i32 {
             }
             if case.probe {
                 tokio::spawn(probe_peer(t.clone(), own_id, sh.clone(), case.probes));
+            }
+            for k in 0..case.crowd {
+                let t = t.clone();
+                tokio::spawn(async move {
+                    tokio::time::sleep(Duration::from_millis(200 + 10 * k as u64)).await;
+                    for _ in 0..50 {
+                        if let Ok(mut s) = TcpStream::connect(("127.0.0.1", 6881)).await {
+                            let mut id = *b"-FK0001-crowdcrowd00";
+                            id[18] = b'a' + (k / 10) % 26;
+                            id[19] = b'0' + k % 10;
+                            let _ = s.write_all(&wire::encode(&RFrame::handshake(t.info_hash(), id))).await;
+                            let _ = s.write_all(&wire::encode(&RFrame::Bitfield(wire::bits_to_bytes(&vec![true; t.geo.pieces_num()])))).await;
+                            // read and discard whatever the client says, for as long as it keeps the connection
+                            let mut buf = [0u8; 4096];
+                            loop {
+                                match s.read(&mut buf).await {
+                                    Ok(0) | Err(_) => break,
+                                    Ok(_) => {}
+                                }
+                            }
+                            return;
+                        }
+                        tokio::time::sleep(Duration::from_millis(100)).await;
+                    }
+                });
             }
             // give the listeners a moment to bind before the client announces
             tokio::time::sleep(Duration::from_millis(30)).await;
@@ -519,6 +583,29 @@ pub fn child_main(case_path: &str, out_path: &str) -> i32 {
                         // C19 mode: done when the tracker has succeeded and every listed peer was contacted
                         let good = sh.tracker_good_ms.load(Ordering::SeqCst) > 0;
                         let all_contacted = sh.contacted.iter().all(|c| c.load(Ordering::SeqCst));
+                        if good && case.crowd >= 11 {
+                            // The client already has more interesting connections than slots: it need not dial the
+                            // listed peers. The session must still be alive: half a second after the good reply a new
+                            // peer dials in and must get handshake and bitfield within 5 s.
+                            tokio::time::sleep(Duration::from_millis(500)).await;
+                            let mut served = false;
+                            if let Ok(Ok(mut s)) = tokio::time::timeout(Duration::from_secs(2), TcpStream::connect(("127.0.0.1", 6881))).await {
+                                let _ = s.write_all(&wire::encode(&RFrame::handshake(ih, *b"-FK0001-afterafter00"))).await;
+                                let mut rd = Reader { buf: vec![] };
+                                let (mut hs, mut bf) = (false, false);
+                                let st = Instant::now();
+                                while st.elapsed() < Duration::from_secs(5) && !(hs && bf) {
+                                    match rd.next(&mut s, Duration::from_millis(200)).await {
+                                        Some(RFrame::Handshake { info_hash, .. }) => hs = info_hash == ih,
+                                        Some(RFrame::Bitfield(_)) => bf = true,
+                                        _ => {}
+                                    }
+                                }
+                                served = hs && bf;
+                            }
+                            *crowd_served2.lock().unwrap() = Some(served);
+                            return (true, false);
+                        }
                         if good && all_contacted {
                             // let handshakes arrive
                             tokio::time::sleep(Duration::from_millis(300)).await;
@@ -554,6 +641,8 @@ pub fn child_main(case_path: &str, out_path: &str) -> i32 {
     res.announced_port = if ap > 0 { Some((ap - 1) as u16) } else { None };
     res.announced_port_answers = *listen_answer.lock().unwrap();
     res.serves_after_recovery = *after_recovery.lock().unwrap();
+    res.crowd_newcomer_served = *crowd_served.lock().unwrap();
+    res.left_violation = sh.left_violation.lock().unwrap().clone();
     if done {
         res.completed_ms = Some(res.wall_ms);
     }
@@ -688,7 +777,7 @@ pub fn download_strategy() -> BoxedStrategy<E2eCase> {
     (small_geo(), vec(peer_spec(), 1..=3), prop_oneof![3 => Just(vec![]), 1 => vec(outcome(), 1..3)], prop_oneof![3 => Just(0u16), 1 => Just(1200u16)], any::<bool>(), any::<u64>())
         .prop_map(|(geo, mut peers, tracker, tracker_start_delay_ms, probe, seed)| {
             peers[0].essential = true;
-            E2eCase { geo, peers, tracker, tracker_start_delay_ms, probe, hold_until_probe_served: false, probes: 1, listen_check: 0, seed }
+            E2eCase { geo, peers, tracker, tracker_start_delay_ms, probe, hold_until_probe_served: false, probes: 1, listen_check: 0, crowd: 0, seed }
         })
         .boxed()
 }
@@ -719,6 +808,11 @@ pub fn check_download(c: &E2eCase) -> Outcome {
             o.class("conclusive");
             if !res.panics.is_empty() {
                 o.fail("process-panic", format!("panic(s) in the client process: {:?}", res.panics));
+            }
+            o.class_if(res.tracker_requests >= 2, "announced-again-during-the-download");
+            if let Some(v) = &res.left_violation {
+                // (C18's clause "the number of bytes left", seen where the real Session announces again mid-download)
+                o.fail("announce-left-outside-what-can-be-missing", v.clone());
             }
             if res.completed_ms.is_none() || !res.files_ok {
                 o.fail(
@@ -756,6 +850,7 @@ pub fn fault_strategy(tier: Tier) -> BoxedStrategy<E2eCase> {
             hold_until_probe_served: true,
             probes,
             listen_check: 0,
+            crowd: if seed % 4 == 0 { 12 + (seed >> 8) as u8 % 4 } else { 0 },
             seed,
         })
         .boxed()
@@ -770,6 +865,7 @@ pub fn check_faults(c: &E2eCase) -> Outcome {
     o.class_if(c.tracker_start_delay_ms > 0, "connection-refused-first");
     o.class_if(c.probes >= 2, "peer-leaves-while-tracker-fails");
     o.class_if(c.probes >= 4, ">=3-peers-leave-while-tracker-fails");
+    o.class_if(c.crowd >= 12, ">=12-interesting-peers-connected-when-the-tracker-recovers");
     let watchdog = Duration::from_secs(90 + 3 * c.tracker.len() as u64);
     match run_child(c, watchdog) {
         Err(_) => {
@@ -804,7 +900,13 @@ pub fn check_faults(c: &E2eCase) -> Outcome {
                     format!("the tracker recovered after {} failed announces and every listed peer got the client's handshake, but at least one of them received nothing after answering it within 5 s ({} probes had come and gone during the outage)", res.tracker_failures_served, c.probes.saturating_sub(1)),
                 );
             }
-            if res.tracker_good_ms.is_some() {
+            if res.crowd_newcomer_served == Some(false) {
+                o.fail(
+                    "session-dead-after-tracker-recovery-in-a-crowd",
+                    format!("{} interesting peers were connected when the tracker recovered after {} failed announces; a peer dialling :6881 half a second later got no handshake and bitfield within 5 s (panics {:?})", c.crowd, res.tracker_failures_served, res.panics),
+                );
+            }
+            if res.tracker_good_ms.is_some() && c.crowd < 11 {
                 for (i, cted) in res.peers_contacted.iter().enumerate() {
                     if !cted {
                         o.fail("listed-peer-not-contacted", format!("after the good tracker reply peer {} was not contacted within the run ({} ms)", i, res.wall_ms));
@@ -841,6 +943,7 @@ fn listen_strategy() -> BoxedStrategy<E2eCase> {
             hold_until_probe_served: false,
             probes: 1,
             listen_check,
+            crowd: 0,
             seed,
         })
         .boxed()
@@ -896,6 +999,6 @@ pub fn c19_faults_sub() -> Sub {
         cases: |t| t.pick(32, 300),
         run: |ctx| run_proptest_cfg(ctx, "faults", fault_strategy(ctx.tier), check_faults, 4),
         replay: |v| replay_case::<E2eCase>(v, check_faults),
-        min_class: &[("conclusive", 0.5)],
+        min_class: &[("conclusive", 0.5), (">=12-interesting-peers-connected-when-the-tracker-recovers", 0.03), (">=3-peers-leave-while-tracker-fails", 0.1)],
     }
 }
